@@ -301,80 +301,17 @@ def _success_rules(run, F, D, V2):
              "outside handlers, after a completed device call, under the device's positive answer.")
     dbo = P.method(D, "_do_block_operation")
     g = A.cfg(dbo, D)
-    rets = [n for n in A.own_nodes(dbo) if isinstance(n, ast.Return) and isinstance(n.value, ast.Tuple)
-            and len(n.value.elts) == 2 and isinstance(n.value.elts[0], ast.Constant) and n.value.elts[0].value is True]
-    run.floor("R2", "success returns in _do_block_operation", len(rets), 2)
-    succ_conds = {}
+    # _do_block_operation: which answers end the operation with OK_TOTAL / OK_PARTIAL, tested after every exchange and before the next block, and the
+    # whole flow of the operation per segment - rules R8 and R9 of C05, re-applied here under the prefix O. (decided on roles, not on local names)
+    from . import c05 as _c05
     from sa.prov import Prov as _Prov
-    PVs = _Prov(A)
-    for r in rets:
-        for rn in g.nodes_of(r):
-            kinds = {x.split(".")[-1] for x in PVs.expand_consistent(dbo, D, r.value.elts[1], rn)}
-            kind = next(iter(kinds)) if len(kinds) == 1 else norm(r.value.elts[1]).split(".")[-1]
-            facts = F.local(dbo, D, rn)
-            want = {"OK_TOTAL": "SUCCESS", "OK_PARTIAL": "PARTIAL"}.get(kind)
-            if want is None:
-                run.fail("R2", f"HSM2Dongle._do_block_operation|return {kind}|unknown-success", dbo.loc(r),
-                         f"_do_block_operation returns (True, {kind}): not a documented success kind")
-                continue
-            def _left_texts(f):
-                try:
-                    return set(PVs.expand_consistent(dbo, D, f.left, f.node if f.node is not None else rn, stop=("response",))) | {norm(f.left)}
-                except AnalysisError:
-                    return {norm(f.left)}
-            hit = [f for f in facts if f.kind == "cmp" and f.op == "==" and
-                   norm(f.right) == f"ops.{want}" and any("response" in t and "OFF.OP" in t for t in _left_texts(f))]
-            run.check("R2", bool(hit), f"{kind} returned only under response op == ops.{want}",
-                      key=f"HSM2Dongle._do_block_operation|return {kind}|gate", where=dbo.loc(r),
-                      message=f"_do_block_operation can return (True, {kind}) without the device's answer "
-                              f"carrying ops.{want}")
-            for h in hit:
-                succ_conds[want] = h.node
-            if kind == "OK_PARTIAL":
-                adv = [f for f in facts if f.kind == "cmp" and f.op == "==" and norm(f.left) == "command"
-                       and norm(f.right).endswith("CMD.ADVANCE")]
-                run.check("R2", bool(adv), "OK_PARTIAL only for the advance command",
-                          key="HSM2Dongle._do_block_operation|return OK_PARTIAL|advance-only", where=dbo.loc(r),
-                          message="OK_PARTIAL can be returned for a command other than advance")
-    # every answer assigned in the loop is examined before the next block
-    outer = None
-    for n in A.own_nodes(dbo):
-        if isinstance(n, ast.For) and isinstance(n.iter, ast.Call) and call_name(n.iter) == "enumerate" \
-                and n.iter.args and norm(n.iter.args[0]) == "blocks":
-            outer = n
-    run.require(outer is not None, "_do_block_operation: the block loop vanished")
-    heads = g.nodes_of(outer.iter)
-    heads = [h for h in heads if h.kind == "for"]
-    assigns = []
-    for n in ast.walk(outer):
-        if isinstance(n, ast.Assign) and any(isinstance(t, ast.Name) and t.id == "response" for t in n.targets):
-            assigns.append(n)
-    run.floor("R2", "answer assignments in the block loop", len(assigns), 3)
-    for want in ("SUCCESS", "PARTIAL"):
-        sc = succ_conds.get(want)
-        if sc is None:
-            continue
-        avoid = {sc}
-        # `command == CMD.ADVANCE and answer == ops.PARTIAL`: the partial test is
-        # only required for advance, so the false edge of its guard also counts
-        for n in g.nodes:
-            if n.kind == "F" and n.cond is not None and n.cond.kind == "cond" \
-                    and norm(n.cond.ast).endswith("CMD.ADVANCE") and norm(n.cond.ast).startswith("command =="):
-                tn = [x for x in g.nodes if x.kind == "T" and x.cond is n.cond]
-                if tn and sc in g.succ[tn[0]]:
-                    avoid.add(n)
-        for a in assigns:
-            for an in g.nodes_of(a):
-                for h in heads:
-                    p = g.witness_path(an, h, avoid=avoid)
-                    run.check("R2", p is None,
-                              f"answer assigned at line {a.lineno} is tested for {want} before the next block",
-                              key=f"HSM2Dongle._do_block_operation|{norm(a.value)[:40]}|skips-{want}-test",
-                              where=dbo.loc(a),
-                              message=f"a device answer obtained at `{norm(a)[:60]}` can reach the next loop "
-                                      f"iteration without being tested for ops.{want}: a total/partial success "
-                                      "reported by the device at that point is lost (client gets an error code)",
-                              witness=g.describe_path(p) if p else None)
+    run.rid_prefix = "O."
+    try:
+        _c05._block_loop_outcome(run, _Prov(A), D, dbo, g)
+        _c05._flow_table(run, _Prov(A), D, dbo, g)
+        _c05._header_flow(run, _Prov(A), D, P.method(D, "_send_block_header"))
+    finally:
+        run.rid_prefix = ""
     # translation tables
     for pc in protocol_classes(run):
         for tname, enum in (("_translate_advance_result", "_AdvanceResponse"),
